@@ -26,7 +26,7 @@ INFO = {
                     'utils.timestamp() = floor of the loop time in ms'],
 }
 OPTS = {'quick': {'replay_every': 3}, 'thorough': {'replay_every': 5}}
-MANDATORY = {'v2': ['outcome-admissible'], 'v1': ['outcome-admissible']}
+MANDATORY = {'v2': ['outcome-admissible'], 'v1': ['outcome-admissible'], 'two_apps': ['outcome-admissible']}
 
 NAMES = ['/a', '/a/b', '/a/c']
 DATA_NAMES = ['/a', '/a/b', '/a/c', '/a/b/d']
@@ -353,7 +353,75 @@ def h_v1(eng, case):
     scenario(eng, case, 'v1')
 
 
-HARNESSES = {'v2': h_v2, 'v1': h_v1}
+def h_two_apps(eng, case):
+    """two application objects of the same front-end in one process, each on its own face: what arrives on (or happens
+    to) one of them never completes an Interest expressed on the other"""
+    import ndn.types as types
+    import ndn.encoding as enc
+    front = case['front']
+    appA, faceA = appenv.make_app(front)
+    appB, faceB = appenv.make_app(front)
+    out = {}
+
+    async def pass_v2(name, sig, ctx):
+        return types.ValidResult.PASS
+
+    async def pass_v1(name, sig):
+        return True
+
+    async def consumer(app, tag, name):
+        try:
+            if front == 'v2':
+                n, c, ctx = await app.express(name, pass_v2, lifetime=4000, nonce=5, can_be_prefix=True)
+            else:
+                n, m_, c = await app.express_interest(name, validator=pass_v1, lifetime=4000, nonce=5, can_be_prefix=True)
+            out[tag] = ('data', bytes(c))
+        except Exception as e:
+            out[tag] = (type(e).__name__,)
+    dA = bytes(enc.make_data('/a/b', enc.MetaInfo(), b'from-face-A'))
+    dB = bytes(enc.make_data('/a/b', enc.MetaInfo(), b'from-face-B'))
+    first = eng.choice(3, 'event-on-A')            # what happens on A while B waits
+
+    async def main(loop):
+        mlA = asyncio.ensure_future(appA.main_loop())
+        mlB = asyncio.ensure_future(appB.main_loop())
+        await asyncio.sleep(0)
+        tB = asyncio.ensure_future(consumer(appB, 'B', '/a/b'))
+        await asyncio.sleep(0)
+        await vloop.sleep_until(loop, loop.at_ms(10))
+        if first == 0:
+            await appA._receive(6, dA)
+        elif first == 1:
+            nk = enc.make_network_nack(enc.make_interest('/a/b', enc.InterestParam(nonce=5, lifetime=4000,
+                                                                                    can_be_prefix=True)), 150)
+            await appA._receive(0x64, nk)
+        else:
+            appA.shutdown()
+        for _ in range(5):
+            await asyncio.sleep(0)
+        out['B-after-A-event'] = out.get('B')
+        await vloop.sleep_until(loop, loop.at_ms(20))
+        await appB._receive(6, dB)
+        await tB
+        appA.shutdown()
+        appB.shutdown()
+        for t in (mlA, mlB):
+            try:
+                await t
+            except Exception:
+                pass
+    loop, r, err = appenv.run(eng, main, max_steps=20000)
+    if err == 'deadlock':
+        eng.fail('outcome-admissible', 'deadlock')
+        return
+    eng.check(out.get('B-after-A-event') is None, 'outcome-admissible', {'B': repr(out.get('B-after-A-event'))},
+              sig='completed-by-an-event-on-another-application')
+    eng.check(out.get('B') == ('data', b'from-face-B'), 'outcome-admissible', {'B': repr(out.get('B'))},
+              sig='other-application:%s' % (out.get('B') or ('none',))[0])
+    eng.reach('end')
+
+
+HARNESSES = {'v2': h_v2, 'v1': h_v1, 'two_apps': h_two_apps}
 
 
 def _orders(nI, nE):
@@ -376,6 +444,8 @@ def _orders(nI, nE):
 def cases(tier, seed):
     cs = []
     quick = tier == 'quick'
+    for front in ('v2', 'v1'):
+        cs.append(('two_apps', {'front': front}, {'weight': 3}))
 
     def add(front, nI, nE, order, inames=None, dnames=None, kinds=None, w=None):
         case = {'I': nI, 'E': nE, 'order': order}
